@@ -3522,6 +3522,26 @@ impl<'a, R: FileManager> FrontendCtx<'a, R> {
             indexed_properties,
         }))
     }
+    /// the members a distributive conditional type is evaluated for: those of a union (also behind
+    /// a name), `true` and `false` for boolean, none for never; None when there is nothing to split
+    fn members_to_distribute_over(&self, bound: &Runtype) -> Option<Vec<Runtype>> {
+        match &bound.kind {
+            RuntypeKind::AnyOf(members) => Some(members.iter().cloned().collect()),
+            RuntypeKind::Boolean => Some(vec![
+                Runtype::const_(RuntypeConst::Bool(true)),
+                Runtype::const_(RuntypeConst::Bool(false)),
+            ]),
+            RuntypeKind::Never => Some(vec![]),
+            RuntypeKind::Ref(r) => match self.resolve_alias(r) {
+                Some(def) if matches!(def.kind, RuntypeKind::AnyOf(_) | RuntypeKind::Boolean) => {
+                    self.members_to_distribute_over(&def)
+                }
+                _ => None,
+            },
+            _ => None,
+        }
+    }
+
     fn convert_conditional_type(
         &mut self,
         t: &TsConditionalType,
@@ -3546,10 +3566,10 @@ impl<'a, R: FileManager> FrontendCtx<'a, R> {
                 .rev()
                 .find(|(n, _)| id.sym == *n)
                 .cloned()
-            && let RuntypeKind::AnyOf(members) = &bound.kind
+            && let Some(members) = self.members_to_distribute_over(&bound)
         {
             let mut out = vec![];
-            for m in members {
+            for m in &members {
                 self.type_application_stack.push((name.clone(), m.clone()));
                 let r = self.convert_conditional_type(t, file_name.clone());
                 self.type_application_stack.pop();
